@@ -27,6 +27,21 @@ T = {
                 ref="DESIGN.md 6/C05", note=REGMC_NOTE),
 }
 
+T.update({
+    'C06': dict(engine='regmc', technique="explicit-state enumeration of all raw values per base (all 2^N for N<=16) and of every default form, on the generated constants/constructors",
+                text="Every base u1..u128 x default form {none, literal, named constant} x {=, :} x boundary default values: raw round trip over all 2^N raw values (N<=16; 24 and the full u32 space in thorough), ZERO/DEFAULT/Default/new() bit-for-bit, size_of/align_of and Copy.",
+                ref="DESIGN.md 6/C06", note=REGMC_NOTE),
+    'C07': dict(engine='regmc', technique="explicit-state enumeration: every N-bit raw value (all 2^N for N<=16) x every bitenum of the bounded declaration alphabet, both conversions vs a discriminant dictionary",
+                text="For N<=3 every non-empty discriminant set in several declaration orders and every accepted exhaustive form, N=4 extreme sizes (all sets in thorough), N 5..8 boundary sets, every N in 9..=64 with boundary discriminants; new_with_raw_value over all 2^N raw values (N<=16) must return the variant / Err(x) and never panic; raw_value and both round trips checked.",
+                ref="DESIGN.md 6/C07", note=REGMC_NOTE),
+    'C08': dict(engine='regmc', technique="explicit-state enumeration over enum-/Option<enum>-/nested-bitfield-typed field layouts, real accessors vs reference register with a discriminant dictionary",
+                text="Exhaustive enums, Option<non-exhaustive enum> (widths 1..8, 9, 16, 17, 32, 33, 63, 64) and nested bitfields (11 widths) placed as scalars (incl. full-width), arrays, split ranges and multi-range arrays on every base <=16 (all states) and the wide bases (alphabet); getter must equal T::new_with_raw_value(ref_get), writes must equal ref_put(T::raw_value).",
+                ref="DESIGN.md 6/C08", note=REGMC_NOTE),
+    'C16': dict(engine='regmc', technique="the exhaustive sweeps of C01-C05/C07/C08 executed in two build profiles; panic observations and per-machine observation digests compared",
+                text="All quick machine sets are built with opt-level 0 + overflow checks + debug assertions and with opt-level 3 without, and swept identically against REG; any Panicked observation other than an out-of-range index, any reference mismatch in either profile and any digest difference between the profiles is a violation.",
+                ref="DESIGN.md 6/C16", note=REGMC_NOTE + " 'Any optimisation level' is covered as that pair of profiles."),
+})
+
 
 def main():
     sys.path.insert(0, os.path.join(ROOT, "engine"))
